@@ -20,7 +20,7 @@ import (
 )
 
 var harnessDirs = map[string]string{
-	".": "harness",
+	".":                         "harness",
 	"cmd/protoc-gen-connect-go": "harness/cmd_protoc-gen-connect-go",
 }
 
@@ -106,7 +106,7 @@ type replayResult struct {
 }
 
 // nativeReplay runs the items against the real build of /repo's current tree.
-func nativeReplay(pkgDir string, items []replayItem, tmp string) (map[string]replayResult, string, error) {
+func nativeReplay(pkgDir string, items []replayItem, tmp string, race ...bool) (map[string]replayResult, string, error) {
 	files, err := harnessFiles(pkgDir, true)
 	if err != nil {
 		return nil, "", err
@@ -145,9 +145,14 @@ func nativeReplay(pkgDir string, items []replayItem, tmp string) (map[string]rep
 	}
 	// -tags verif enables /repo's verification hook (pooled buffers are
 	// poisoned on release), see MANIFEST.hooks.
-	cmd := exec.Command("go", "test", "-tags", "verif", "-overlay", ovFile, "-vet=off", "-count=1", "-run", "^TestVerifReplay$", "-timeout", "900s", "-v", pattern)
+	goArgs := []string{"test", "-tags", "verif", "-overlay", ovFile, "-vet=off", "-count=1", "-run", "^TestVerifReplay$", "-timeout", "900s", "-v"}
+	if len(race) > 0 && race[0] {
+		// data-race candidates are confirmed by Go's own race detector
+		goArgs = append(goArgs, "-race")
+	}
+	cmd := exec.Command("go", append(goArgs, pattern)...)
 	cmd.Dir = repoDir
-	cmd.Env = append(os.Environ(), "GOFLAGS=-mod=mod", "GOPROXY=off", "GOSUMDB=off", "GOTOOLCHAIN=local", "VERIF_REPLAY_LIST="+listFile)
+	cmd.Env = append(os.Environ(), "GOFLAGS=-mod=mod", "GOPROXY=off", "GOSUMDB=off", "GOTOOLCHAIN=local", "CGO_ENABLED=1", "GORACE=halt_on_error=0", "VERIF_REPLAY_LIST="+listFile)
 	var outb bytes.Buffer
 	cmd.Stdout = &outb
 	cmd.Stderr = &outb
@@ -263,8 +268,11 @@ func cmdCheck(args []string) int {
 	var jobsList []*job
 	for _, h := range sel {
 		for _, s := range solvers {
-			if s != "portfolio" && h.Opts["cross"] == "off" {
-				continue
+			if c := h.Opts["cross"]; s != "portfolio" && c != "" {
+				// cross=off: no second opinion; cross=<solver>[+<solver>]: only those
+				if c == "off" || !strings.Contains("+"+c+"+", "+"+s+"+") {
+					continue
+				}
 			}
 			// shard=name:n splits the harness over the values of a nondetChoice
 			if sh := h.Opts["shard"]; sh != "" {
@@ -369,12 +377,17 @@ func cmdCheck(args []string) int {
 		pkgDir  string
 	}
 	pending := map[string]*pend{}
+	var raceItems []replayItem
 	for _, h := range sel {
 		r := primary[h.Name]
 		for i := range r.Violations {
 			v := &r.Violations[i]
 			id := "V-" + modelID(h.Name, v.Model) + fmt.Sprintf("-%d", i)
 			pending[id] = &pend{kind: "violation", harness: h.Name, v: v, pkgDir: h.PkgDir}
+			if isRaceMsg(v.Msg) {
+				raceItems = append(raceItems, replayItem{ID: id, Harness: h.Name, Tier: tierN, Model: v.Model})
+				continue
+			}
 			byDir[h.PkgDir] = append(byDir[h.PkgDir], replayItem{ID: id, Harness: h.Name, Tier: tierN, Model: v.Model})
 		}
 		nw := 0
@@ -402,6 +415,26 @@ func cmdCheck(args []string) int {
 			inconcl = append(inconcl, "native replay: "+err.Error()+": "+lastLines(logText, 12))
 		}
 	}
+	// data-race candidates: one `go test -race` run each (at most six), so that
+	// a report of Go's race detector can be attributed to its candidate
+	raceLogs := map[string]string{}
+	seenRaceMsg := map[string]bool{}
+	for _, it := range raceItems {
+		p := pending[it.ID]
+		if seenRaceMsg[p.v.Msg] || len(seenRaceMsg) >= 6 {
+			delete(pending, it.ID)
+			continue
+		}
+		seenRaceMsg[p.v.Msg] = true
+		rr, logText, err := nativeReplay(p.pkgDir, []replayItem{it}, tmp, true)
+		for k, v := range rr {
+			replayed[k] = v
+		}
+		raceLogs[it.ID] = logText
+		if err != nil && len(rr) == 0 {
+			inconcl = append(inconcl, "native race replay: "+err.Error()+": "+lastLines(logText, 12))
+		}
+	}
 	replaySec := time.Since(replayStart).Seconds()
 
 	confirmed := 0
@@ -423,7 +456,9 @@ func cmdCheck(args []string) int {
 			}
 		case "violation":
 			repro := false
-			if strings.HasPrefix(p.v.Msg, "panic: ") {
+			if isRaceMsg(p.v.Msg) {
+				repro = raceReportMatches(raceLogs[id], p.v.Msg)
+			} else if strings.HasPrefix(p.v.Msg, "panic: ") {
 				repro = rr.Status == "panic" || rr.Status == "timeout"
 			} else {
 				for _, f := range rr.Failures {
@@ -535,13 +570,22 @@ func cmdReplay(args []string) int {
 	}
 	tmp, _ := os.MkdirTemp("", "gosmt-replay-")
 	defer os.RemoveAll(tmp)
-	rr, logText, err := nativeReplay(v.PkgDir, []replayItem{{ID: "R", Harness: v.Harness, Tier: v.Tier, Model: v.Model}}, tmp)
-	if err != nil {
+	rr, logText, err := nativeReplay(v.PkgDir, []replayItem{{ID: "R", Harness: v.Harness, Tier: v.Tier, Model: v.Model}}, tmp, isRaceMsg(v.Check))
+	if err != nil && !(isRaceMsg(v.Check) && len(rr) > 0) {
 		fmt.Println("replay error:", err, logText)
 		return 2
 	}
 	r := rr["R"]
 	fmt.Printf("native replay of %s: status=%s failures=%v panic=%q\n", v.Harness, r.Status, r.Failures, r.Panic)
+	if isRaceMsg(v.Check) {
+		if raceReportMatches(logText, v.Check) {
+			fmt.Println("go test -race reports the same pair of accesses")
+			fmt.Printf("VIOLATION property=%s replay=%s\n", v.Property, args[0])
+			return 1
+		}
+		fmt.Println("not reproduced")
+		return 0
+	}
 	for _, f := range r.Failures {
 		if f == v.Check {
 			fmt.Printf("VIOLATION property=%s replay=%s\n", v.Property, args[0])
@@ -584,6 +628,14 @@ func mergeResult(a, b *RunResult) {
 	}
 	a.Obligations += b.Obligations
 	a.Discharged += b.Discharged
+	if b.Race != nil {
+		if a.Race == nil {
+			a.Race = &RaceStat{}
+		}
+		a.Race.Accesses += b.Race.Accesses
+		a.Race.Skipped += b.Race.Skipped
+		a.Race.Syncs += b.Race.Syncs
+	}
 	if a.CheckSites == nil {
 		a.CheckSites = map[string]int{}
 	}
@@ -650,4 +702,45 @@ func fixWitnessInconcl(r *RunResult) {
 		}
 	}
 	r.Inconcl = keep
+}
+
+func isRaceMsg(msg string) bool { return strings.HasPrefix(msg, "data race: ") }
+
+var raceSiteRe = regexp.MustCompile(`(?:read|write) in (\S+)(?: (\S+\.go:\d+))?`)
+
+// raceReportMatches reports whether the output of a `go test -race` run has a
+// DATA RACE report that names both access sites of the symbolic candidate
+// (by file:line where the SSA instruction has a position, else by function).
+func raceReportMatches(logText, msg string) bool {
+	var tokens []string
+	for _, m := range raceSiteRe.FindAllStringSubmatch(msg, -1) {
+		if m[2] != "" {
+			tokens = append(tokens, "/"+m[2])
+			continue
+		}
+		name := m[1]
+		if i := strings.LastIndex(name, "."); i >= 0 {
+			name = name[i+1:]
+		}
+		if i := strings.Index(name, "$"); i >= 0 {
+			name = name[:i]
+		}
+		tokens = append(tokens, "."+name)
+	}
+	if len(tokens) < 2 {
+		return false
+	}
+	for _, block := range strings.Split(logText, "WARNING: DATA RACE")[1:] {
+		if i := strings.Index(block, "=================="); i >= 0 {
+			block = block[:i]
+		}
+		ok := true
+		for _, t := range tokens {
+			ok = ok && strings.Contains(block, t)
+		}
+		if ok {
+			return true
+		}
+	}
+	return false
 }
